@@ -95,7 +95,8 @@ def lit(v):
     return ('lit', v)
 
 class Interp:
-    def __init__(self, facts, body, summaries=None, unroll=1, inline=None):
+    def __init__(self, facts, body, summaries=None, unroll=1, inline=None, field_hook=None):
+        self.field_hook = field_hook
         self.facts = facts
         self.body = body            # hirq.Body
         self.summaries = summaries or []   # list of callables (interp, callee, args, node, st) -> [Out] | None
@@ -261,6 +262,10 @@ class Interp:
         return outs
 
     def read_field(self, base, name, st):
+        if self.field_hook is not None:
+            r = self.field_hook(base, name, st)
+            if r is not None:
+                return r
         place = ('field', base, name)
         if place in st.heap:
             return st.heap[place]
@@ -624,6 +629,8 @@ class Interp:
         return outs
 
     def call(self, cal, args, node, st):
+        if node.get('ty') == '!':
+            return [Out('div', UNIT, st.event(('panic', cal, tuple(args), node)))]
         for sm in self.summaries:
             r = sm(self, cal, args, node, st)
             if r is not None:
@@ -967,7 +974,7 @@ def builtin_summary(I, cal, args, node, st):
             if kt != 'no':
                 branches.append((('variant', v, good, 0), st if kt == 'yes' else st.assume(('is', v, good), True)))
             if kt != 'yes':
-                outs.append(Out('val', v, st if kt == 'no' else st.assume(('is', v, good), False)))
+                outs.append(Out('val', ('ctor', 'None', ()) if is_opt else v, st if kt == 'no' else st.assume(('is', v, good), False)))
         for inner, s in branches:
             for o in I.apply(args[1], [inner], node, s):
                 if o.kind == 'val' and name == 'map':
